@@ -853,6 +853,50 @@ func dbGen(r *rand.Rand, n int, length int, withReopen bool) []Case {
 				t.open = false
 			}
 		}
+		if c%5 == 1 {
+			// the window of the conflict check under a lagging read watermark: an old transaction keeps several committed
+			// versions of a key on the oracle's list; T reads the key between two of them; the old transaction finishes, commits
+			// that do not touch the key run the clean-up of the list; T then writes and commits: refused (the model decides)
+			short := func(key string, n int) {
+				t := begin(true)
+				ops = append(ops, fmt.Sprintf("set %d %s %s", t.idx, hxs(key), hxs(fmt.Sprintf("w%d.%d", n, t.idx))), fmt.Sprintf("commit %d", t.idx))
+				t.open = false
+			}
+			for round := 0; round < 1+r.Intn(2); round++ {
+				k, o := pickKey(r, nk), pickKey(r, nk)
+				old := begin(r.Intn(2) == 0)
+				for j := 0; j < 1+r.Intn(2); j++ {
+					short(k, round)
+				}
+				for j := 0; j < r.Intn(3); j++ {
+					short(o, round)
+				}
+				t := begin(true)
+				ops = append(ops, fmt.Sprintf("get %d %s", t.idx, hxs(k)))
+				if r.Intn(2) == 0 {
+					ops = append(ops, fmt.Sprintf("get %d %s", t.idx, hxs(o)))
+				}
+				for j := 0; j < 1+r.Intn(2); j++ {
+					short(k, round)
+				}
+				for j := 0; j < r.Intn(2); j++ {
+					short(o, round)
+				}
+				if old.update && r.Intn(2) == 0 {
+					ops = append(ops, fmt.Sprintf("set %d %s %s", old.idx, hxs("old"), hxs("x")), fmt.Sprintf("commit %d", old.idx))
+				} else {
+					ops = append(ops, fmt.Sprintf("discard %d", old.idx))
+				}
+				old.open = false
+				for j := 0; j < 1+r.Intn(3); j++ {
+					short(fmt.Sprintf("other%d", j), round)
+				}
+				ops = append(ops, fmt.Sprintf("set %d %s %s", t.idx, hxs("z"), hxs("t")), fmt.Sprintf("commit %d", t.idx))
+				t.open = false
+			}
+			tags["conflict-window-under-a-lagging-read-mark"] = true
+			tags["concurrent-txns"] = true
+		}
 		for i := 0; i < length; i++ {
 			x := r.Intn(100)
 			ot := openTxs()
